@@ -1,6 +1,8 @@
 package rules
 
 import (
+	"go/token"
+	"go/types"
 	"sort"
 	"strings"
 
@@ -13,7 +15,7 @@ import (
 func init() {
 	register(&Prop{
 		ID:          "C19",
-		Explanation: "Enumerates every source of a run-time panic the analysis can name in code reachable from ServeHTTP (VTA call graph) and requires each to be discharged: explicit panic statements and single-value type assertions (reviewed table, one construct one reason), index/slice expressions whose bounds check the Go compiler's prove pass could not eliminate (compiler IR residue mapped to function+expression; discharged by a dominating length guard found on every path or by the reviewed table), Must* calls with dynamic arguments (discharged when the argument is a constant template over regexp.QuoteMeta), dereferences of the nullable SessionState timestamps (non-nil fact by nil test, setter or fresh address on every path, or at every call site; includes passing them to helpers that dereference unguarded), and pointers filled by JSON/claims decoders used without a nil test; plus scope presence (NewScope is the first pre-auth middleware, installed before any route) and agreement between the SameSite values validation accepts and ParseSameSite handles.",
+		Explanation: "Enumerates every source of a run-time panic the analysis can name in code reachable from ServeHTTP (VTA call graph) and requires each to be discharged: explicit panic statements and single-value type assertions (reviewed table, one construct one reason), index/slice expressions whose bounds check the Go compiler's prove pass could not eliminate (compiler IR residue mapped to function+expression; discharged by a dominating length guard found on every path or by the reviewed table), Must* calls with dynamic arguments (discharged when the argument is a constant template over regexp.QuoteMeta), dereferences of the nullable SessionState timestamps (non-nil fact by nil test, setter or fresh address on every path, or at every call site; includes passing them to helpers that dereference unguarded), and pointers filled by JSON/claims decoders used without a nil test; plus scope presence (NewScope is the first pre-auth middleware, installed before any route) and agreement between the SameSite values validation accepts and ParseSameSite handles. Added during the build: P6 — in every module function, the pointer/interface result of a fallible call is dereferenced (directly, through one phi, or by a module callee that dereferences its parameter unguarded) only behind the err==nil edge of that call's error, a nil test of the error merged with it, or a non-nil test of the result; logger.Fatal*/os.Exit arms count as terminating.",
 		NotDecided:  "panics inside third-party libraries on hostile bytes (msgpack, lz4, go-oidc, gorilla); nil-map writes, integer division, channel misuse and resource exhaustion; bounds checks inside inlined standard-library code are attributed to the trusted library.",
 		Run:         runC19,
 	})
@@ -24,7 +26,6 @@ var reviewedPanics = reviewed{
 	"P2|pkg/apis/middleware.GetRequestScope|scope.(*RequestScope)":                                        "the value under the private key type scopeKey is only ever stored by AddRequestScope, as *RequestScope (checked: single WithValue site)",
 	"P1|(*pkg/app/pagewriter.pageGetter).getPage|panic":                                                   "page names are the package's own constants, all registered by loadStaticPages at construction",
 	"P1|pkg/cookies.ParseSameSite|panic":                                                                  "SameSite is restricted to '', lax, strict, none by validateCookie (agreement checked by samesite-agreement)",
-	"P4|pkg/cookies.MakeCookieFromOptions|opts.Domains[len(opts.Domains) - 1]":                            "guarded by len(opts.Domains) > 0 in the same condition",
 	"P4|(*pkg/cookies.csrf).cookieName|encryption.HashNonce(c.OAuthState)[0:csrfStateLength - 1]":         "HashNonce of a non-nil nonce is 43 base64 characters; every CSRF this proxy signs carries 32 state bytes",
 	"P4|pkg/encryption.cookieSignature|args[0]":                                                           "variadic always called with the seed first (SignedValue and Validate pass four strings)",
 	"P1|(*pkg/ip.NetSet).getNetMaps|panic":                                                                "net.IP values reaching NetSet come from net.ParseIP/ParseCIDR (4 or 16 bytes); nil is rejected by isTrustedIP before Has",
@@ -87,9 +88,111 @@ func (c *Ctx) panicAuto(rule string) func(panicSite) (string, bool) {
 			if c.sliceGuardedEverywhere(s) {
 				return "dominated on every path by a length test for the same bound", true
 			}
+			if c.lastElemGuardedEverywhere(s) {
+				return "x[len(x)-1] reached only on paths where len(x) is known positive", true
+			}
 		}
 		return "", false
 	}
+}
+
+// lastElemGuardedEverywhere: every index instruction at the site is x[len(x)-1] and every path to it
+// assumed len(x) > 0 (or len(x) != 0, len(x) >= 1).
+func (c *Ctx) lastElemGuardedEverywhere(s panicSite) bool {
+	var targets []*ssa.IndexAddr
+	for _, b := range s.Fn.Blocks {
+		for _, in := range b.Instrs {
+			if ia, ok := in.(*ssa.IndexAddr); ok && c.P.Pos(ia.Pos()) == c.P.Pos(s.Pos) {
+				targets = append(targets, ia)
+			}
+		}
+	}
+	if len(targets) == 0 {
+		return false
+	}
+	// re-loads of the indexed slot count as the same value only if the function itself never stores to a
+	// slice-typed field or element
+	for _, b := range s.Fn.Blocks {
+		for _, in := range b.Instrs {
+			if st, ok := in.(*ssa.Store); ok {
+				if _, isSlice := st.Val.Type().Underlying().(*types.Slice); isSlice {
+					if _, local := st.Addr.(*ssa.Alloc); !local {
+						return false
+					}
+				}
+			}
+		}
+	}
+	all, seen := true, false
+	w := walk.New(c.P, s.Fn)
+	w.MaxPaths = 20000
+	w.Run(func(p *walk.Path) {
+		for i, st := range p.Steps {
+			ia, ok := st.In.(*ssa.IndexAddr)
+			if !ok {
+				continue
+			}
+			hit := false
+			for _, t := range targets {
+				if t == ia {
+					hit = true
+				}
+			}
+			if !hit {
+				continue
+			}
+			seen = true
+			base := p.Resolve(p.StepOp(ia.X, st))
+			sub, ok := p.Resolve(p.StepOp(ia.Index, st)).V.(*ssa.BinOp)
+			if !ok || sub.Op != token.SUB {
+				all = false
+				continue
+			}
+			if n, ok := ConstInt(sub.Y); !ok || n != 1 {
+				all = false
+				continue
+			}
+			isLenOfBase := func(v walk.DV) bool {
+				call, ok := p.Resolve(v).V.(*ssa.Call)
+				if !ok {
+					return false
+				}
+				bi, ok := call.Call.Value.(*ssa.Builtin)
+				// same value, or a re-load of the same field/element slot (the function stores to no such slot: checked below)
+				return ok && bi.Name() == "len" && sameValueOrSlot(p, p.Op(call.Call.Args[0], p.Resolve(v)), base)
+			}
+			if !isLenOfBase(p.StepOp(sub.X, st)) {
+				all = false
+				continue
+			}
+			guarded := false
+			for _, a := range p.Atoms(i) {
+				b, ok := a.DV.V.(*ssa.BinOp)
+				if !ok || a.IsNil {
+					continue
+				}
+				x, y := p.Op(b.X, a.DV), p.Op(b.Y, a.DV)
+				cy, yConst := ConstInt(b.Y)
+				cx, xConst := ConstInt(b.X)
+				switch {
+				case b.Op == token.GTR && a.Val && isLenOfBase(x) && yConst && cy >= 0: // len > 0
+					guarded = true
+				case b.Op == token.GEQ && a.Val && isLenOfBase(x) && yConst && cy >= 1: // len >= 1
+					guarded = true
+				case b.Op == token.LSS && a.Val && isLenOfBase(y) && xConst && cx >= 0: // 0 < len
+					guarded = true
+				case (b.Op == token.EQL || b.Op == token.NEQ) && !a.Val && isLenOfBase(x) && yConst && cy == 0: // !(len == 0)
+					guarded = true
+				case b.Op == token.LEQ && !a.Val && isLenOfBase(x) && yConst && cy >= 0: // !(len <= 0)
+					guarded = true
+				}
+			}
+			if !guarded {
+				all = false
+			}
+		}
+	})
+	return seen && all && !w.Overflow
 }
 
 // sliceGuardedEverywhere: all SSA slice instructions at the site's position are length-guarded on every path.
@@ -139,6 +242,7 @@ func runC19(c *Ctx) {
 	r := c.R
 	r.Rule("P-sites", "every explicit panic, unchecked assertion, unproven bounds check and dynamic Must* call in request-reachable code is guarded or reviewed", 43)
 	r.Rule("P3-nullable", "nullable session timestamps and decoder-filled pointers are never dereferenced without a non-nil fact", 11)
+	r.Rule("P6-result-before-errcheck", "a pointer/interface result of a fallible call is dereferenced only behind the err==nil edge of that call's error (or a non-nil test of the result)", 57)
 	r.Rule("scope-presence", "GetRequestScope's result is non-nil for every routed request: NewScope is the first pre-auth middleware", 2)
 	r.Rule("samesite-agreement", "every SameSite value validation accepts is handled by ParseSameSite without panicking", 1)
 
@@ -179,6 +283,9 @@ func runC19(c *Ctx) {
 		n.checkTimestamps(rule, fns)
 	}
 	c.checkDecodedPointers(rule, fns)
+
+	// ---- P6 -------------------------------------------------------------------------------------
+	c.checkErrResults("P6-result-before-errcheck", c.P.ModFns)
 
 	// ---- scope presence -----------------------------------------------------------------------
 	rule = "scope-presence"
